@@ -1,5 +1,6 @@
 /- C16 — CONNECT, upgrade and tunnel handling. -/
 import HtpModel.Lemmas.Conn
+import HtpModel.Lemmas.HistoryTunnel
 
 namespace Htp.C16
 open Htp.Conn Htp.Gen
@@ -105,5 +106,37 @@ theorem C16_suspended_call (cfg : Cfg) (c : Conn) (d : Bytes) (uid : Nat) (hlen 
   unfold reqData
   rw [hcore]
   exact ⟨rfl, hc1rd, hc1ev, hc1txs⟩
+
+/-- **C16 (tunnel mode is absorbing and silent, over whole histories: forall streams, chunkings, interleavings)**: once a direction is in tunnel
+    mode - status TUNNEL, its call guard (a current transaction, or the idle state) and the other direction quiet (TUNNEL, ERROR or STOP, which
+    is what the only two writers of TUNNEL, the CONNECT probe and the 101 switch, leave behind: `history_tunnelPair`) - it stays so through ANY
+    list of data calls of either direction, htp_connp_open and htp_connp_tx_freed, and every later non-empty data call of that direction returns
+    HTP_STREAM_TUNNEL, runs no callback, changes no transaction and counts its bytes (`Lemmas/TunnelFrames.lean`, `Lemmas/HistoryTunnel.lean`).
+    Closes are excluded: htp_connp_close / htp_connp_req_close overwrite TUNNEL (finding S8-tunnel, `tunnel_not_kept_by_close`). -/
+theorem C16_history_tunnel_absorbing (cfg : Cfg) (c0 : Conn) (calls : List Call) (hn : NoClose calls) :
+    (TunnelIn c0 → TunnelIn (runCalls cfg c0 calls)) ∧ (TunnelOut c0 → TunnelOut (runCalls cfg c0 calls)) :=
+  ⟨history_tunnel_absorbing_req cfg c0 calls hn, history_tunnel_absorbing_res cfg c0 calls hn⟩
+
+theorem C16_history_tunnel_silent (cfg : Cfg) (c0 : Conn) (calls : List Call) (hn : NoClose calls) (h : TunnelIn c0) :
+    ∀ pre d, pre ++ [.req d] <+: calls → 0 < d.length →
+      (reqData cfg (some d) d.length (runCalls cfg c0 pre)).2 = STREAM_TUNNEL ∧
+      (reqData cfg (some d) d.length (runCalls cfg c0 pre)).1.events = (runCalls cfg c0 pre).events ∧
+      (reqData cfg (some d) d.length (runCalls cfg c0 pre)).1.txs = (runCalls cfg c0 pre).txs ∧
+      (reqData cfg (some d) d.length (runCalls cfg c0 pre)).1.inn.status = STREAM_TUNNEL ∧
+      (reqData cfg (some d) d.length (runCalls cfg c0 pre)).1.inDataCounter = (runCalls cfg c0 pre).inDataCounter + d.length :=
+  history_tunnel_req_silent cfg c0 calls hn h
+
+/-- **C16 (finding S44: the call guard is needed)**: the status alone is NOT absorbing. From a fresh parser, without any close: an HTTP/0.9
+    request line pipelined behind a complete request leaves the request side without a transaction in REQ_IGNORE_DATA_AFTER_HTTP_0_9; a 101
+    response then switches both directions to TUNNEL; the next request data call returns HTP_STREAM_ERROR and overwrites TUNNEL, because
+    htp_connp_req_data tests "no transaction and not idle" before it tests for tunnel mode. Kernel-evaluated on the model, replayed on the
+    library (known finding S44). -/
+theorem C16_tunnel_left_counterexample :
+    let calls : List Call := [.open, .req (b!"GET /a HTTP/1.1\r\nHost: x\r\n\r\nGET /\n"), .res (b!"HTTP/1.1 101 Switching Protocols\r\n\r\n")]
+    let c := runCalls {} {} calls
+    NoClose calls ∧ c.inn.status = STREAM_TUNNEL ∧ c.out.status = STREAM_TUNNEL ∧ c.inn.tx = none ∧ c.inState = .ignoreDataAfter09 ∧
+    TunnelOut c ∧ ¬ TunnelIn c ∧
+    (reqData {} (some (b!"abc")) 3 c).2 = STREAM_ERROR ∧ (reqData {} (some (b!"abc")) 3 c).1.inn.status = STREAM_ERROR := by
+  decide
 
 end Htp.C16
